@@ -5,6 +5,7 @@ package props
 import (
 	"verif/checker/internal/core"
 	"verif/checker/internal/lib"
+	"verif/checker/internal/tmpl"
 )
 
 type Prop struct {
@@ -48,7 +49,7 @@ func reg(p *Prop) {
 type E = []func(*core.Ctx)
 
 func init() {
-	for _, id := range []string{"C01", "C02", "C03", "C04", "C05", "C06", "C07", "C08", "C09", "C10", "C11", "C12", "C13", "C14", "C19"} {
+	for _, id := range []string{"C01", "C02", "C03", "C04", "C05", "C06", "C07", "C08", "C09", "C10", "C11", "C14", "C19"} {
 		NotYet[id] = "engine for this property is designed (DESIGN.md section 4) but not yet armed in this commit; not claimed until its check runs clean on the pinned tree"
 	}
 
@@ -122,5 +123,37 @@ func init() {
 			{Rule: "RAPID.nil", Min: 2, Why: "nil sources + method calls"},
 		},
 		Explanation: "SSA/AST rules on rapidproto; see level text. Runtime-value clauses (UTF-8, round trip, URL resolvability) are not decided.",
+	})
+
+	reg(&Prop{
+		ID:        "C12",
+		Technique: "emitted-brace typestate over the template functions (all schemas) + compile-fail witness: the working-tree generator is run as a build step on a schema corpus and its output is type-checked with go/types",
+		DesignRef: "DESIGN.md 3.12, 4 C12",
+		LevelText: "T.brace: every function of the template packages that emits code is abstractly interpreted with state = net braces/parens of the constant text it emits; branch conditions over never-reassigned locals are enumerated as atoms, switch arms are nondeterministic; all paths of a function must agree, loop bodies and root emitters must be balanced - this holds for all schemas, not only the corpus. GEN.*: the generator built from the working tree must answer every corpus schema (kind x shape matrix, 1..5-byte tags, interleaved oneofs, nesting/recursion, cross-package imports, well-known types, name collisions, sparse enums, the schemas embedded in the checked-in files) with sources that type-check (thorough: also GOARCH=386 and the full 12x17 map matrix), an unknown feature with an error, proto2 / unrequested files with no output. The emitted code is only analysed, never run. Not decided: totality for schemas outside the corpus beyond T.*; M/paths= parameter handling is protogen's.",
+		Engines:      E{tmpl.RunBrace, tmpl.RunNames, tmpl.RunKinds, tmpl.RunFlow, tmpl.RunS2},
+		RulePrefixes: []string{"T.brace", "T.names", "T.kinds", "T.flow", "T.anchor", "GEN", "G.model", "G.anchor"},
+		Floors: []core.Floor{
+			{Rule: "T.brace", Min: 60, Why: "emitting template functions"},
+			{Rule: "T.names", Min: 19, Why: "16 methods + 3 structure rules"},
+			{Rule: "T.kinds", Min: 30, Why: "kind switches in the templates"},
+			{Rule: "T.flow", Min: 8, Why: "driver guards and error propagation"},
+			{Rule: "GEN.run", Min: 14, Why: "quick corpus schemas"},
+			{Rule: "GEN.types", Min: 12, Why: "generated packages"},
+		},
+		Explanation: "Template-level brace typestate (all schemas) plus generator run + type-check over the schema corpus; see level text.",
+	})
+
+	reg(&Prop{
+		ID:        "C13",
+		Technique: "who-may-call / effect rules on the generator's typed syntax: banned nondeterminism sources by resolved object, package-state writes, map-range idiom classification, sort comparator shape, cross-file state readers",
+		DesignRef: "DESIGN.md 3.12, 4 C13",
+		LevelText: "The absence of every nondeterminism source is decided on the generator's own source: no identifier in any generator package resolves to a clock, environment, host, path, random, network or file-system function (by go/types object, so aliases and wrappers in the repo are seen); package-level variables are written only by init-time registration; every range over a Go map is one of the confirmed order-insensitive idioms (collect-then-sort verified up to the sort call, write-into-map, unique-match scan on a descriptor full name) and its body emits nothing; every sort.Slice comparator is a strict '<' on one key of elements i and j; GenerateHelpers bodies are empty and no template reads LocalPackages/Ext/IsLocalMessage (state that depends on the co-generated file set). Not decided: byte identity across process runs as an observation (it follows from the absence of any source under A3: protogen itself is deterministic).",
+		Engines:      E{tmpl.RunDetPure},
+		RulePrefixes: []string{"T.det", "T.pure", "T.anchor"},
+		Floors: []core.Floor{
+			{Rule: "T.det", Min: 4, Why: "2 map ranges + 2 sort.Slice comparators"},
+			{Rule: "T.pure", Min: 12, Why: "7 package scans + registration write + 2 GenerateHelpers + 3 reader scans"},
+		},
+		Explanation: "Effect/who-may-call rules on all generator packages; see level text.",
 	})
 }
